@@ -50,6 +50,18 @@ def main():
                           "detected": rc == 1 and any(l.startswith("VIOLATION") for l in lines),
                           "with_failing_input": any(l.startswith("VIOLATION") and "no-failing-input-found" not in l for l in lines),
                           "when": time.strftime("%Y-%m-%dT%H:%M:%S"), "where": "repo" if use_repo else "sandbox"}
+            # keep what the replay file said (the sandbox is removed afterwards)
+            msgs = []
+            for l in lines:
+                if l.startswith("VIOLATION") and "replay=" in l:
+                    rpath = os.path.join(verif, l.split("replay=")[1].split()[0])
+                    try:
+                        j = json.load(open(rpath))
+                        msgs.append({"kind": j.get("kind"), "message": str(j.get("message"))[:1500],
+                                     "failing_input": str(j.get("failing_input"))[:1500], "why": str(j.get("why"))[:600]})
+                    except Exception as e:
+                        msgs.append({"error": str(e)})
+            results[k]["replays"] = msgs
             print(pid, k, "exit", rc, "|", " | ".join(lines)[:400])
             if rc not in (0, 1):
                 print(out[-1500:])
